@@ -38,6 +38,10 @@ def sched_stream(nontrivial=(), quick=(6, 4, 120), thorough=(14, 10, 1500), what
     return {"kind": "sched", "budget": {"quick": quick, "thorough": thorough}, "nontrivial": list(nontrivial),
             "what": what or "L3: 2-3 real threads running short programs (calls that overflow a hot cache, tag/event/name/conditional invalidations, statistics queries) on real generated functions under a deterministic scheduler that switches at every lock acquisition (hook H1): seeded random schedules, then stateless DFS (exhaustive when the space fits the budget); deadlock = all unfinished threads parked at held locks; every operation's real lock trace checked against the Lean skeleton; quiescent dumps; sequential probe history vs the model"}
 
+def hammer_stream(quick=(3, 8, 400), thorough=(30, 12, 3000)):
+    return {"kind": "hammer", "budget": {"quick": quick, "thorough": thorough}, "nontrivial": [],
+            "what": "free-running parallel stress: 8-12 real threads call plain generated functions (sync global and async) whose results are already stored, with large values; any body execution or wrong value is a violation for SOME real schedule (the scheduler of the L3 stream serialises threads and cannot contend inside DashMap shards)"}
+
 def lines_stream(bin_, mode, args, quick, thorough, what, nontrivial_re="."):
     return {"kind": "lines", "bin": bin_, "mode": mode, "args": args, "n": {"quick": quick, "thorough": thorough},
             "what": what, "nontrivial_re": nontrivial_re}
@@ -69,11 +73,11 @@ PROPS = {
         "design_ref": "DESIGN.md §7 C02", "assumptions": ["float Debug injective on non-NaN"],
     },
     "C03": {
-        "lean_modules": ["Cachelito.Props.C03"],
-        "streams": [macro_stream(nontrivial=["c03-call"])],
+        "lean_modules": ["Cachelito.Props.C03", "Cachelito.Props.C03c"],
+        "streams": [macro_stream(nontrivial=["c03-call"]), hammer_stream()],
         "monitors": ["C03"],
         "rule": "call histories on real generated functions; non-trivial = a call of a function configured without limit/ttl/max_memory/predicates before any invalidation touched it (the configuration the property speaks about)",
-        "level_text": "Lean theorems (sequential histories): in the plain configuration the stored key set equals the set of keys called on that cache instance, the body runs exactly once per distinct key and instance (per thread for thread scope), every repeated call is served the first value without running the body. Tied to the code by execution counters and cache dumps of real generated functions. The clause about concurrently missing callers is covered only by the scheduled runs of C17/C18 (monitor on values), not by a theorem yet.",
+        "level_text": "Lean theorems (sequential histories): in the plain configuration the stored key set equals the set of keys called on that cache instance, the body runs exactly once per distinct key and instance (per thread for thread scope), every repeated call is served the first value without running the body. Tied to the code by execution counters and cache dumps of real generated functions. Concurrent clause (C03c, interleaving model of wrapper calls = lookup; body; store at critical-section granularity, any number of callers, any schedule, both engines): a stored key stays stored, no lookup after a store-write misses, so a call starting after a storing call returned never runs the body, and the number of body runs for a key is at most the number of lookups that read before the first store-write. Tied to the code by a free-running parallel stress stream (any body execution for a stored key is a violation).",
         "level_note": MODEL_NOTE,
         "technique": TECH, "design_ref": "DESIGN.md §7 C03", "assumptions": ["sequential histories"],
     },
@@ -219,7 +223,7 @@ PROPS = {
     },
     "C18": {
         "lean_modules": ["Cachelito.Props.C18"],
-        "streams": [sched_stream(nontrivial=["nested-acquisition", "concurrent-call"])],
+        "streams": [sched_stream(nontrivial=["nested-acquisition", "concurrent-call"]), hammer_stream()],
         "monitors": ["C18"],
         "rule": "scheduled runs of 2-3 real threads (calls overflowing a hot cache, group and conditional invalidations) followed by quiescent dumps and a 5-call sequential probe; non-trivial = a run with nested acquisitions or concurrent calls; distinct by (schedule, event trace)",
         "level_text": "Lean theorems over a data-carrying interleaving model (one atomic micro-step per critical section, any number of threads, programs and schedules): every call returns f(k) for its own key; ASYNC: the store/queue invariant, the entry limit and the memory bound hold after EVERY micro-step; SYNC (store write precedes the queue push): at every point stored keys missing from the queue belong to in-flight stores and |store| <= limit + |in flight|; at quiescence every stored key is queued (evictable, expirable, invalidatable), the queue is duplicate-free, |store| <= limit under every policy and total memory <= max_memory; sequential use after quiescence keeps the bounds and correct values under the weaker invariant (orphan queue keys allowed); a one-thread system is exactly Cachelito.run. The pre-fix clear (F6) and async expired lookup (F8) are refuted with concrete schedules. Tied to the code by the scheduled runs: values per call, quiescent dumps checked directly, probe history vs the model from the dumped state, lock traces vs skeletons.",
@@ -228,12 +232,12 @@ PROPS = {
         "design_ref": "DESIGN.md §7 C18", "assumptions": ["DashMap operations are linearizable"],
     },
     "C15": {
-        "lean_modules": ["Cachelito.Props.C15", "Cachelito.Props.C15b"],
+        "lean_modules": ["Cachelito.Props.C15", "Cachelito.Props.C15b", "Cachelito.Props.C15c"],
         "streams": [core_stream(nontrivial=["hit", "expiry"]), macro_stream(nontrivial=["stats-get", "stats-reset", "hit"]),
                     sched_stream(nontrivial=["quiescent-stats-checked"], quick=(6, 4, 60))],
         "monitors": ["C15"],
         "rule": "L1: counters in every state dump; L2: stats_registry::get(name) after every call, get/reset by name incl. unknown names; non-trivial = hit, expiry-as-miss, stats query or reset",
-        "level_text": "Lean theorems (sequential): every lookup bumps exactly one counter, hits iff it returned a value (an expired entry is a miss), nothing else touches the counters, hits+misses = number of lookups for every history. Tied to the code by the counters in every L1 state dump and by the registry's per-name statistics after every L2 call. Concurrent part: in scheduled runs of real threads (incl. lookups of expired entries racing with each other and with stores) hits+misses at quiescence must equal the number of completed calls and hits the number of calls served from the cache; there is no separate theorem for the atomic counters (fetch_add atomicity is assumed).",
+        "level_text": "Lean theorems (sequential): every lookup bumps exactly one counter, hits iff it returned a value (an expired entry is a miss), nothing else touches the counters, hits+misses = number of lookups for every history. Tied to the code by the counters in every L1 state dump and by the registry's per-name statistics after every L2 call. Concurrent part: in scheduled runs of real threads (incl. lookups of expired entries racing with each other and with stores) hits+misses at quiescence must equal the number of completed calls and hits the number of calls served from the cache; and (C15c) in the interleaving model the counters equal the number of counted lookups at every point of every schedule and are exact at quiescence, hits = lookups that returned a value (fetch_add atomicity is assumed).",
         "level_note": MODEL_NOTE + " AtomicU64::fetch_add is assumed atomic.",
         "technique": TECH, "design_ref": "DESIGN.md §7 C15",
         "assumptions": ["distinct cache names"],
